@@ -531,10 +531,17 @@ func (r *replicatorActor) handleProtoTombstone(msg *internalpb.CRDTTombstone) {
 	delete(r.store, keyID)
 	delete(r.versions, keyID)
 
+	deletedAt := time.Unix(0, msg.GetDeletedAtNanos())
+	// a late tombstone of an older delete must not shorten the life of the
+	// tombstone already held for a newer delete of the same key
+	if existing, ok := r.tombstones[keyID]; ok && !existing.deletedAt.Before(deletedAt) {
+		return
+	}
+
 	r.tombstones[keyID] = &tombstone{
 		keyID:     keyID,
 		dataType:  dataType,
-		deletedAt: time.Unix(0, msg.GetDeletedAtNanos()),
+		deletedAt: deletedAt,
 		deletedBy: msg.GetDeletedByNode(),
 	}
 }
